@@ -221,7 +221,7 @@ End Chan.
    on the whole contact: *)
 Definition chan_env : menv :=
   {| max_field_chars := 640;
-     urn_normalize := fun u => u; urn_valid := fun _ => true; urn_identity := fun u => u mod 100; urn_scheme := fun _ => 1;
+     urn_norm1 := fun u => u; urn_valid := fun _ => true; urn_identity := fun u => u mod 100; urn_scheme := fun _ => 1;
      urn_set_channel := fun ch u => match ch with Some k => 100 * (k + 1) + u mod 100 | None => u mod 100 end;
      urn_channel := fun u => if u <? 100 then None else Some (u / 100 - 1); tel_scheme := 1;
      chan_can_send := fun _ => true; chan_supports := fun _ _ => true;
